@@ -409,4 +409,100 @@ theorem ref_written_later (seg slice index k : Nat) (same : Bool)
            | (rw [Nat.mod_eq_of_lt (by omega)]; omega)
            | omega)
 
+/-- RFC 9106 §3.4.2: J1 ↦ x = J1²/2^32, y = (|W|·x)/2^32, z = |W| − 1 − y, position (start + z) mod q in lane l -/
+def phiRFC (J1 m s lane lanes : Nat) : Nat :=
+  let x := (J1 * J1) / 2 ^ 32
+  let y := (m * x) / 2 ^ 32
+  lane * lanes + (s + (m - 1 - y)) % lanes
+
+theorem phi_eq_rfc (rand m s : UInt64) (lane lanes : UInt32)
+    (hm : 1 ≤ m.toNat) (hm32 : m.toNat < 4294967296) (hs32 : s.toNat < 4294967296) (hl : 0 < lanes.toNat)
+    (hmem : lane.toNat * lanes.toNat + lanes.toNat ≤ 4294967296) :
+    (phi rand m s lane lanes).toNat =
+      phiRFC (rand.toNat % 4294967296) m.toNat s.toNat lane.toNat lanes.toNat ∧
+    (m.toNat * ((rand.toNat % 4294967296 * (rand.toNat % 4294967296)) / 2 ^ 32)) / 2 ^ 32 < m.toNat := by
+  generalize hJ : rand.toNat % 4294967296 = J
+  have hJlt : J < 4294967296 := by rw [← hJ]; exact Nat.mod_lt _ (by decide)
+  -- p0
+  have e0 : (rand &&& 0xFFFFFFFF).toNat = J := by
+    rw [UInt64.toNat_and]
+    show rand.toNat &&& (2 ^ 32 - 1) = J
+    rw [Nat.and_two_pow_sub_one_eq_mod]; exact hJ
+  have hJJ : J * J < 4294967296 * 4294967296 := Nat.mul_lt_mul'' hJlt hJlt
+  -- p1 = (p0*p0) >> 32
+  have e1 : (((rand &&& 0xFFFFFFFF) * (rand &&& 0xFFFFFFFF)) >>> 32).toNat = J * J / 2 ^ 32 := by
+    rw [UInt64.toNat_shiftRight, UInt64.toNat_mul, e0, Nat.shiftRight_eq_div_pow]
+    have : J * J % 2 ^ 64 = J * J := Nat.mod_eq_of_lt (by omega)
+    rw [this]; rfl
+  generalize hx : J * J / 2 ^ 32 = x at e1
+  have hxlt : x < 4294967296 := by
+    rw [← hx]; exact Nat.div_lt_of_lt_mul (by omega)
+  have hxm : x * m.toNat < 4294967296 * m.toNat := Nat.mul_lt_mul_of_pos_right hxlt (by omega)
+  have hxm2 : x * m.toNat < 4294967296 * 4294967296 := Nat.mul_lt_mul'' hxlt hm32
+  -- p2 = (p1*m) >> 32
+  have e2 : (((((rand &&& 0xFFFFFFFF) * (rand &&& 0xFFFFFFFF)) >>> 32) * m) >>> 32).toNat = x * m.toNat / 2 ^ 32 := by
+    rw [UInt64.toNat_shiftRight, UInt64.toNat_mul, e1, Nat.shiftRight_eq_div_pow]
+    have : x * m.toNat % 2 ^ 64 = x * m.toNat := Nat.mod_eq_of_lt (by omega)
+    rw [this]; rfl
+  generalize hy : x * m.toNat / 2 ^ 32 = y at e2
+  have hylt : y < m.toNat := by
+    rw [← hy]; exact Nat.div_lt_of_lt_mul (by omega)
+  refine ⟨?_, by rw [Nat.mul_comm m.toNat x, hy]; exact hylt⟩
+  unfold phi phiRFC
+  simp only []
+  rw [hx, Nat.mul_comm m.toNat x, hy]
+  generalize ((((rand &&& 0xFFFFFFFF) * (rand &&& 0xFFFFFFFF)) >>> 32) * m) >>> 32 = p2 at e2 ⊢
+  have e3 : (s + m - (p2 + 1)).toNat = s.toNat + (m.toNat - 1 - y) := by
+    have a1 : (p2 + 1).toNat = y + 1 := by
+      rw [UInt64.toNat_add, e2]; show (y + 1) % 18446744073709551616 = _; omega
+    have a2 : (s + m).toNat = s.toNat + m.toNat := by
+      rw [UInt64.toNat_add]; omega
+    rw [UInt64.toNat_sub, a1, a2]; omega
+  have e4 : ((s + m - (p2 + 1)) % lanes.toUInt64).toUInt32.toNat = (s.toNat + (m.toNat - 1 - y)) % lanes.toNat := by
+    rw [UInt64.toNat_toUInt32, UInt64.toNat_mod, e3, UInt32.toNat_toUInt64]
+    have := Nat.mod_lt (s.toNat + (m.toNat - 1 - y)) hl
+    have := lanes.toNat_lt
+    omega
+  have hr := Nat.mod_lt (s.toNat + (m.toNat - 1 - y)) hl
+  rw [UInt32.toNat_add, UInt32.toNat_mul, e4]
+  have : lane.toNat * lanes.toNat < 4294967296 := by omega
+  rw [Nat.mod_eq_of_lt this]
+  omega
+
+/-- **indexAlpha_eq_rfc**: at every position the code visits (slice < 4, index inside the segment, index ≥ 2
+    in the very first slice; lane length q = 4·seg, seg ≥ 2, the reference lane's blocks below 2^32) the block
+    index returned by indexAlpha — computed in uint32 / uint64 machine arithmetic — is
+    `l·q + (start + (|W| − 1 − y)) mod q` with l the reference lane, |W| and start the reference area of
+    RFC 9106 §3.4, and y = (|W| · (J1² / 2^32)) / 2^32 for J1 = the low 32 bits of the pseudo-random word. -/
+theorem indexAlpha_eq_rfc (rand : UInt64) (lanes seg threads n slice lane index : UInt32)
+    (hq : lanes.toNat = 4 * seg.toNat) (hseg : 2 ≤ seg.toNat) (hs : slice.toNat < 4)
+    (hi : index.toNat < seg.toNat) (hidx2 : n.toNat = 0 → slice.toNat = 0 → 2 ≤ index.toNat)
+    (hmem : (refLaneOf rand threads n slice lane).toNat * lanes.toNat + lanes.toNat ≤ 4294967296) :
+    (indexAlpha rand lanes seg threads n slice lane index).toNat =
+      phiRFC (rand.toNat % 4294967296)
+        (refAreaRFC seg.toNat n.toNat slice.toNat index.toNat (lane == refLaneOf rand threads n slice lane))
+        (startRFC seg.toNat n.toNat slice.toNat)
+        (refLaneOf rand threads n slice lane).toNat lanes.toNat := by
+  have hseg4 : 4 * seg.toNat < 4294967296 := by
+    have := lanes.toNat_lt; omega
+  have hfirst : n.toNat = 0 → slice.toNat = 0 →
+      (lane == refLaneOf rand threads n slice lane) = true ∧ 2 ≤ index.toNat := by
+    intro h1 h2
+    have e1 : n = 0 := UInt32.toNat_inj.mp h1
+    have e2 : slice = 0 := UInt32.toNat_inj.mp h2
+    refine ⟨?_, hidx2 h1 h2⟩
+    simp [refLaneOf, e1, e2]
+  obtain ⟨a1, a2, a3⟩ := indexAlpha_area_rfc seg n slice index (lane == refLaneOf rand threads n slice lane)
+    hseg hseg4 hs hi hfirst
+  unfold indexAlpha
+  simp only []
+  have hp := (phi_eq_rfc rand (areaSize seg n slice index (lane == refLaneOf rand threads n slice lane)).1.toUInt64
+    (areaSize seg n slice index (lane == refLaneOf rand threads n slice lane)).2.toUInt64
+    (refLaneOf rand threads n slice lane) lanes
+    (by rw [UInt32.toNat_toUInt64]; exact a3)
+    (by rw [UInt32.toNat_toUInt64]; exact UInt32.toNat_lt _)
+    (by rw [UInt32.toNat_toUInt64]; exact UInt32.toNat_lt _)
+    (by omega) hmem).1
+  rw [hp, UInt32.toNat_toUInt64, UInt32.toNat_toUInt64, a1, a2]
+
 end XC.C15
